@@ -13,7 +13,46 @@ def parseItems (s : String) : Option (List Bytes) := (s.splitOn ",").mapM ofHex?
 def render (model spec : Bytes) : String :=
   if model = spec then hex model else s!"{hex model}\tspec={hex spec}"
 
+/-! `ts|op;op;…` : a run of operations on a `TrieState` over an empty trie; ops `a K ITEM`, `p K VAL`,
+    `g K`, `b`, `r`, `c`, `cap K`, `snap`.  After every op: the values of the keys 61, 62, 6162 in the
+    current view | the captured values | the values in the trie kept by `snap`; `.` = none. -/
+
+def tsKeys : List Bytes := [[0x61], [0x62], [0x61, 0x62]]
+
+def parseOp (s : String) : Option Op :=
+  match words s with
+  | ["a", k, i] => match ofHex? k, ofHex? i with | some k, some i => some (.app k i) | _, _ => none
+  | ["p", k, v] => match ofHex? k, ofHex? v with | some k, some v => some (.put k v) | _, _ => none
+  | ["g", k] => (ofHex? k).map .get
+  | ["b"] => some .tbegin
+  | ["r"] => some .rollback
+  | ["c"] => some .commit
+  | ["cap", k] => (ofHex? k).map .cap
+  | ["snap"] => some .snap
+  | _ => none
+
+def showTS (t : TS) : String :=
+  let cur := "/".intercalate (tsKeys.map (fun k => hex ((t.stack.headD []).get k)))
+  let caps := "/".intercalate (tsKeys.map (fun k =>
+    match t.caps.find? (·.1 = k) with | some p => hex p.2 | none => "."))
+  let old := "/".intercalate (tsKeys.map (fun k =>
+    match t.old with | some s => hex (s.get k) | none => "."))
+  s!"{cur}|{caps}|{old}"
+
+def runTS : TS → List String → List String → String
+  | _, [], acc => ";".intercalate acc.reverse
+  | t, o :: os, acc =>
+    match parseOp o with
+    | none => ";".intercalate (("bad-op" :: acc).reverse)
+    | some op =>
+      match t.step op with
+      | none => ";".intercalate (("panic" :: acc).reverse)
+      | some t' => runTS t' os (showTS t' :: acc)
+
 def step (line : String) : String :=
+  if line.startsWith "ts|" then
+    runTS TS.init ((String.ofList (line.toList.drop 3)).splitOn ";") []
+  else
   match words line with
   | ["app", c, i] =>
     match parseCur c, ofHex? i with
